@@ -1,6 +1,6 @@
 (* C05  MAP adaptation interpolates between the prior model and the data by relevance. *)
 From Coq Require Import Reals List.
-From BLE Require Import Num.InstR Model.GMM Proofs.RLemmas Proofs.GMMLik Proofs.GMMMap.
+From BLE Require Import Num.InstR Model.GMM Proofs.RLemmas Proofs.GMMLik Proofs.GMMStats Proofs.GMMMap Proofs.GMMMapEM.
 Import ListNotations MR.
 Open Scope R_scope.
 
@@ -67,6 +67,18 @@ Theorem C05_no_evidence_variance_faithful_refuted :
   exists eps a n sxx pv pm, n < eps /\ length pv = length pm /\ map_var1 false eps a n sxx pv pm pm <> pv.
 Proof. exact map_no_evidence_vars_faithful_refuted. Qed.
 Print Assumptions C05_no_evidence_variance_faithful_refuted.
+
+(* means-only adaptation never decreases the relevance-penalised likelihood (every component with evidence) *)
+Theorem C05_means_only_monotone (sq : bool) (eps r al : R) (nf : nat) (X : list (list R)) (prior : gmm) (mc : machine) :
+  X <> [] -> rows_ok nf X -> wf_gmm nf (g mc) -> 0 < r -> 0 < eps ->
+  length (ws (g mc)) = length (mus (g mc)) -> length (ws (g mc)) = length (vars (g mc)) ->
+  length (mus prior) = length (ws (g mc)) -> Forall (fun mu0 => length mu0 = nf) (mus prior) ->
+  let st := e_step nf (g mc) X in
+  Forall (fun n => eps <= n) (s_n st) ->
+  let mc' := map_m_step sq means_only eps (Some r) al prior st mc in
+  wf_gmm nf (g mc') /\ map_objective r prior (g mc) X <= map_objective r prior (g mc') X.
+Proof. exact (map_means_only_monotone sq eps r al nf X prior mc). Qed.
+Print Assumptions C05_means_only_monotone.
 
 Example C05_nonvacuous : 0 <= map_alpha1 (Some 4) 0 6 < 1.
 Proof. exact map_alpha_example. Qed.
